@@ -44,6 +44,8 @@ fn src(max_zoom: u8) -> impl Strategy<Value = Src> {
 		3 => (leaf(max_zoom, false, true, 20), any::<bool>(), any::<bool>(), proptest::option::of(0usize..3), any::<bool>(), proptest::option::of((0u8..6, 0u8..14)))
 			.prop_map(|(leaf, flip, swap, comp, force, zoom)| Src::Convert { leaf, flip, swap, comp: comp.map(|i| Comp::ALL[i]), force, zoom }),
 		4 => node(max_zoom, 3).prop_map(Src::Pipeline),
+		1 => leaf_chunky(max_zoom).prop_map(Src::Leaf),
+		1 => (leaf_chunky(max_zoom), any::<bool>(), any::<bool>()).prop_map(|(leaf, flip, swap)| Src::Convert { leaf, flip, swap, comp: None, force: false, zoom: None }),
 	]
 }
 
